@@ -1,0 +1,188 @@
+//go:build verif
+
+// Contracts for package rfc8628, checked by /verif/govc (see /verif/DESIGN.md).
+// Comment-only: this file adds no code to the package.
+package rfc8628
+
+// ---------------------------------------------------------------- abstract store: device authorizations
+// dev_live[s]: GetDeviceCodeSession(s) answers with the request; dev_used[s]: it answers ErrInvalidatedDeviceCode.
+//@ ghost dev_used   : map[string]bool
+//@ ghost dev_req    : map[string]fosite.DeviceRequester
+//@ ghost dev_rid    : map[string]string
+//@ ghost dev_client : map[string]string
+
+//@ spec func dev_unchanged() bool = dev_live == old(dev_live) && dev_used == old(dev_used) && dev_req == old(dev_req) && dev_rid == old(dev_rid) && dev_client == old(dev_client)
+
+//@ interface DeviceAuthStorage.CreateDeviceAuthSession
+//@   modifies dev_live, dev_used, dev_req, dev_rid, dev_client, stored, faults
+//@   ensures err == nil ==> dev_live == upd(upd(old(dev_live), deviceCodeSignature, true), userCodeSignature, true) && dev_req == upd(upd(old(dev_req), deviceCodeSignature, request), userCodeSignature, request) && dev_rid == upd(upd(old(dev_rid), deviceCodeSignature, request.GetID()), userCodeSignature, request.GetID()) && dev_client == upd(upd(old(dev_client), deviceCodeSignature, request.GetClient().GetID()), userCodeSignature, request.GetClient().GetID()) && stored == upd(old(stored), request, true) && faults == old(faults)
+//@   ensures err != nil && eis(err, fosite.ErrExistingUserCodeSignature) ==> dev_unchanged() && stored == old(stored) && faults == old(faults)
+//@   ensures err != nil && !eis(err, fosite.ErrExistingUserCodeSignature) ==> dev_unchanged() && stored == old(stored) && faults == old(faults) + 1
+
+//@ interface DeviceAuthStorage.GetDeviceCodeSession
+//@   modifies faults
+//@   ensures err == nil ==> dev_live[signature] && request != nil && request == dev_req[signature] && request.GetID() == dev_rid[signature] && request.GetClient() != nil && request.GetClient().GetID() == dev_client[signature] && (stored[request] || fresh(request)) && faults == old(faults)
+//@   ensures err != nil && eis(err, fosite.ErrInvalidatedDeviceCode) ==> dev_used[signature] && !dev_live[signature] && request == dev_req[signature] && (request != nil ==> request.GetID() == dev_rid[signature] && (stored[request] || fresh(request))) && faults == old(faults)
+//@   ensures err != nil && !eis(err, fosite.ErrInvalidatedDeviceCode) && eis(err, fosite.ErrNotFound) ==> !dev_live[signature] && !dev_used[signature] && faults == old(faults)
+//@   ensures err != nil && !eis(err, fosite.ErrInvalidatedDeviceCode) && !eis(err, fosite.ErrNotFound) ==> faults == old(faults) + 1
+
+// After a successful invalidation the code is no longer live; whether the store remembers it as used
+// (answers ErrInvalidatedDeviceCode) or forgets it (answers not-found) is the store's choice.
+//@ interface DeviceAuthStorage.InvalidateDeviceCodeSession
+//@   modifies dev_live, dev_used, faults
+//@   ensures err == nil ==> dev_live == upd(old(dev_live), signature, false) && (dev_used == upd(old(dev_used), signature, true) || dev_used == old(dev_used)) && faults == old(faults)
+//@   ensures err != nil ==> dev_live == old(dev_live) && dev_used == old(dev_used) && faults == old(faults) + 1
+
+// ---------------------------------------------------------------- strategies
+// The signature of a device code is a function of the strategy and the code.
+//@ spec func devsig(strategy DeviceCodeStrategy, code string) string
+//@ interface DeviceCodeStrategy.DeviceCodeSignature
+//@   ensures err == nil ==> signature == devsig(recv, code)
+// rl_blocked records whether the last rate-limit decision refused the poll (limit hit, or the strategy failed).
+//@ ghost rl_blocked : bool
+//@ interface DeviceRateLimitStrategy.ShouldRateLimit
+//@   modifies rl_blocked
+//@   ensures rl_blocked == (err != nil || result0)
+//@ interface DeviceCodeStrategy.ValidateDeviceCode
+//@   modifies validated_n
+//@   ensures err == nil ==> validated_n == upd(old(validated_n), code, old(validated_n[code]) + 1)
+//@   ensures err != nil ==> validated_n == old(validated_n)
+
+// ---------------------------------------------------------------- C16 / C05 / C18: device token endpoint
+
+//@ func (*DeviceCodeTokenEndpointHandler).CanHandleTokenEndpointRequest
+//@   pure
+//@   ensures result == requester.GetGrantTypes().ExactOne("urn:ietf:params:oauth:grant-type:device_code")
+
+//@ func (DeviceCodeTokenEndpointHandler).getGrantType
+//@   pure
+//@   ensures result == "urn:ietf:params:oauth:grant-type:device_code"
+
+//@ func getExpiresIn
+//@   ensures [C07.expires-in-consistent] r.GetSession().GetExpiresAt(key) == 0 ==> result == defaultLifespan
+//@   ensures [C07.expires-in-consistent] r.GetSession().GetExpiresAt(key) != 0 ==> result == r.GetSession().GetExpiresAt(key) - now
+
+//@ func (*DeviceCodeTokenEndpointHandler).canIssueRefreshToken
+//@   requires c != nil
+//@   ensures [C05.refresh-issuance-rule] result <==> ((len(c.Config.GetRefreshTokenScopes(ctx)) == 0 || requester.GetGrantedScopes().HasOneOf(c.Config.GetRefreshTokenScopes(ctx))) && requester.GetClient().GetGrantTypes().Has("refresh_token"))
+
+//@ func (DeviceCodeTokenEndpointHandler).validateGrantTypes
+//@   ensures [C16.grant-type-needed] err == nil <==> requester.GetClient().GetGrantTypes().Has("urn:ietf:params:oauth:grant-type:device_code")
+//@   ensures [C16.grant-type-needed] err != nil ==> ekind(err) == "unauthorized_client"
+
+//@ func (DeviceCodeTokenEndpointHandler).deviceCode
+//@   ensures [C16.code-from-form] err == nil ==> code == formget(requester.GetRequestForm(), "device_code") && signature == devsig(c.DeviceCodeStrategy, code)
+//@   ensures [C16.code-from-form] err != nil ==> ekind(err) == "server_error"
+
+//@ func (DeviceCodeTokenEndpointHandler).validateCode
+//@   modifies rl_blocked
+//@   ensures [C16.rate-limit] (err != nil) == rl_blocked
+
+// session: the state machine of one device authorization as seen by the token endpoint.
+//@ func (DeviceCodeTokenEndpointHandler).session
+//@   modifies faults
+//@   ensures [C16.pending] err == nil ==> result != nil && dev_live[codeSignature] && result == dev_req[codeSignature] && result.GetID() == dev_rid[codeSignature] && result.GetClient() != nil && result.GetClient().GetID() == dev_client[codeSignature] && (stored[result] || fresh(result)) && result.GetUserCodeState() != fosite.UserCodeUnused && result.GetUserCodeState() != fosite.UserCodeRejected && faults == old(faults)
+//@   ensures [C16.pending] faults == old(faults) && dev_live[codeSignature] && dev_req[codeSignature].GetUserCodeState() == fosite.UserCodeUnused ==> err != nil && result == nil && ekind(err) == "authorization_pending"
+//@   ensures [C16.denied] faults == old(faults) && dev_live[codeSignature] && dev_req[codeSignature].GetUserCodeState() == fosite.UserCodeRejected ==> err != nil && result == nil && ekind(err) == "access_denied"
+//@   ensures [C16.unknown-code] faults == old(faults) && !dev_live[codeSignature] && !dev_used[codeSignature] ==> err != nil && result == nil && ekind(err) == "invalid_grant"
+//@   ensures [C16.used-code] faults == old(faults) && dev_used[codeSignature] && !dev_live[codeSignature] ==> err != nil && result == dev_req[codeSignature] && (result != nil ==> eis(err, fosite.ErrInvalidatedDeviceCode) && result.GetID() == dev_rid[codeSignature]) && (result == nil ==> ekind(err) == "server_error")
+//@   ensures [C16.fault-refuses] faults != old(faults) ==> err != nil && result == nil && ekind(err) == "server_error"
+
+// revokeTokens always answers invalid_grant and, unless a revocation call faults, leaves no access token and no
+// active refresh token carrying the given request id.
+//@ func (*DeviceCodeTokenEndpointHandler).revokeTokens
+//@   requires c != nil
+//@   modifies acc_exists, ref_active, faults
+//@   ensures [C16.replay-revokes] err != nil && ekind(err) == "invalid_grant"
+//@   ensures [C16.replay-revokes] faults == old(faults) ==> (forall s string :: acc_exists[s] ==> acc_rid[s] != reqId) && (forall s string :: ref_exists[s] && ref_rid[s] == reqId ==> !ref_active[s])
+//@   ensures [C16.replay-revokes] (forall s string :: acc_exists[s] ==> old(acc_exists[s])) && (forall s string :: ref_active[s] ==> old(ref_active[s]))
+//@   ensures [C16.replay-revokes] (forall s string :: acc_rid[s] != reqId ==> acc_exists[s] == old(acc_exists[s])) && (forall s string :: ref_rid[s] != reqId ==> ref_active[s] == old(ref_active[s]))
+
+//@ func (*DeviceCodeTokenEndpointHandler).HandleTokenEndpointRequest
+//@   let code = formget(old(requester.GetRequestForm()), "device_code")
+//@   let sig = devsig(c.DeviceCodeStrategy, code)
+//@   requires c != nil && requester != nil && !stored[requester] && requester.GetClient() != nil
+//@   modifies acc_exists, ref_active, faults, validated_n, rl_blocked
+//@   ensures [C16.handle-issues-nothing] (forall s string :: acc_exists[s] ==> old(acc_exists[s])) && (forall s string :: ref_active[s] ==> old(ref_active[s])) && dev_live == old(dev_live) && dev_used == old(dev_used)
+//@   ensures [C16.fault-refuses] faults != old(faults) ==> err != nil
+//@   ensures [C06.lookup-then-validate] err == nil ==> validated_n[code] > old(validated_n[code])
+//@   ensures [C16.tokens-only-if-accepted] err == nil ==> dev_live[sig] && dev_req[sig] != nil && dev_req[sig].GetUserCodeState() != fosite.UserCodeUnused && dev_req[sig].GetUserCodeState() != fosite.UserCodeRejected
+//@   ensures [C16.client-bound] err == nil ==> dev_client[sig] == requester.GetClient().GetID()
+//@   ensures [C16.grant-copied] err == nil ==> requester.GetID() == dev_rid[sig] && requester.GetSession() == dev_req[sig].GetSession() && requester.GetRequestedScopes() == dev_req[sig].GetRequestedScopes() && requester.GetRequestedAudience() == dev_req[sig].GetRequestedAudience()
+//@   let polled = c.CanHandleTokenEndpointRequest(ctx, requester) && old(requester.GetClient().GetGrantTypes()).Has("urn:ietf:params:oauth:grant-type:device_code") && c.DeviceCodeStrategy != nil && faults == old(faults) && !rl_blocked
+//@   ensures [C16.pending] dev_live[sig] && dev_req[sig].GetUserCodeState() == fosite.UserCodeUnused ==> err != nil
+//@   ensures [C16.pending] polled && dev_live[sig] && dev_req[sig].GetUserCodeState() == fosite.UserCodeUnused ==> ekind(err) == "authorization_pending" || ekind(err) == "server_error"
+//@   ensures [C16.denied] dev_live[sig] && dev_req[sig].GetUserCodeState() == fosite.UserCodeRejected ==> err != nil
+//@   ensures [C16.denied] polled && dev_live[sig] && dev_req[sig].GetUserCodeState() == fosite.UserCodeRejected ==> ekind(err) == "access_denied" || ekind(err) == "server_error"
+//@   ensures [C16.replay-refused] !dev_live[sig] ==> err != nil
+//@   ensures [C16.replay-revokes] dev_used[sig] && !dev_live[sig] && dev_req[sig] != nil && faults == old(faults) && !rl_blocked && ekind(err) == "invalid_grant" ==> (forall s string :: acc_exists[s] ==> acc_rid[s] != dev_rid[sig]) && (forall s string :: ref_exists[s] && ref_rid[s] == dev_rid[sig] ==> !ref_active[s])
+
+// ---------------------------------------------------------------- device / user code strategy (C07, C16)
+// expired(exp, requestedAt, lifespan, now): the documented source order - session expiry if set, else requested-at + lifespan.
+//@ spec func expired_at(exp time.Time, reqAt time.Time, life time.Duration, now time.Time) bool = exp == 0 ? reqAt + life < now : exp < now
+
+//@ func (*DefaultDeviceStrategy).ValidateDeviceCode
+//@   requires h != nil && r != nil
+//@   ensures [C07.device-code-expiry] err == nil ==> $now >= old($now) && !expired_at(r.GetSession().GetExpiresAt(fosite.DeviceCode), r.GetRequestedAt(), h.Config.GetDeviceAndUserCodeLifespan(ctx), $now)
+//@   ensures [C06.device-code-authentic] err == nil ==> authentic(h.Enigma, strings.TrimPrefix(code, "ory_dc_"))
+
+//@ func (*DefaultDeviceStrategy).ValidateUserCode
+//@   requires h != nil && r != nil
+//@   ensures [C07.user-code-expiry] err == nil ==> $now >= old($now) && !expired_at(r.GetSession().GetExpiresAt(fosite.UserCode), r.GetRequestedAt(), h.Config.GetDeviceAndUserCodeLifespan(ctx), $now)
+
+//@ func (*DefaultDeviceStrategy).UserCodeSignature
+//@   requires h != nil
+//@   ensures [C16.user-code-signature] err == nil ==> result0 == hmacstr(h.Enigma, token) && result0 != ""
+//@   ensures [C16.user-code-signature] err != nil ==> result0 == ""
+
+//@ func (*DefaultDeviceStrategy).GenerateUserCode
+//@   requires h != nil
+//@   ensures [C16.user-code-signed] result2 == nil ==> result1 == hmacstr(h.Enigma, result0) && result1 != ""
+
+//@ func (*DefaultDeviceStrategy).GenerateDeviceCode
+//@   requires h != nil
+//@   ensures [C16.device-code-signed] result2 == nil ==> result1 != "" && result0 != "" && (exists t string :: result0 == "ory_dc_" + t && result1 == hmacsig(t) && authentic(h.Enigma, t))
+
+//@ func (*DefaultDeviceStrategy).DeviceCodeSignature
+//@   requires h != nil
+//@   ensures [C16.device-code-signature] result1 == nil && result0 == hmacsig(token)
+
+//@ spec func tables_unchanged8() bool = code_active == old(code_active) && acc_exists == old(acc_exists) && ref_exists == old(ref_exists) && ref_active == old(ref_active) && dev_live == old(dev_live)
+
+//@ func (*DeviceCodeTokenEndpointHandler).PopulateTokenEndpointResponse
+//@   let code = formget(old(requester.GetRequestForm()), "device_code")
+//@   let sig  = devsig(c.DeviceCodeStrategy, code)
+//@   let txl  = implements(c.CoreStorage, storage.Transactional)
+//@   requires c != nil && requester != nil && responder != nil && !stored[requester]
+//@   modifies dev_live, dev_used, code_active, acc_exists, acc_rid, acc_client, acc_req, ref_exists, ref_active, ref_rid, ref_client, ref_acc, ref_req, stored, faults, tx_open, tx_begun, tx_committed, tx_rolledback, tx_commit_calls, tx_rollback_calls, snap_code_active, snap_acc_exists, snap_ref_exists, snap_ref_active, snap_dev_live, validated_n
+//@   ensures [C16.once] err == nil ==> old(dev_live[sig]) && !dev_live[sig]
+//@   ensures [C16.tokens-only-if-accepted] err == nil ==> old(dev_req[sig]) != nil && old(dev_req[sig]).GetUserCodeState() != fosite.UserCodeUnused && old(dev_req[sig]).GetUserCodeState() != fosite.UserCodeRejected
+//@   ensures [C06.lookup-then-validate] err == nil ==> validated_n[code] > old(validated_n[code])
+//@   ensures [C16.issued-with-request-id] err == nil ==> (forall s string :: acc_exists[s] && !old(acc_exists[s]) ==> acc_rid[s] == requester.GetID()) && (forall s string :: ref_exists[s] && !old(ref_exists[s]) ==> ref_rid[s] == requester.GetID())
+//@   assert @call(CreateAccessTokenSession)#1 [C16.invalidate-before-create] !dev_live[sig]
+//@   assert @call(CreateRefreshTokenSession)#1 [C16.invalidate-before-create] !dev_live[sig]
+//@   ensures [C16.no-refresh-without-rule] (exists s string :: ref_exists[s] && !old(ref_exists[s])) ==> ((len(c.Config.GetRefreshTokenScopes(ctx)) == 0 || requester.GetGrantedScopes().HasOneOf(c.Config.GetRefreshTokenScopes(ctx))) && requester.GetClient().GetGrantTypes().Has("refresh_token"))
+//@   ensures [C18.unexpected-error-refuses] faults != old(faults) ==> err != nil
+//@   ensures [C18.begin-matched-once] txl && tx_begun == old(tx_begun) + 1 ==> (tx_committed == old(tx_committed) + 1 && tx_rollback_calls == old(tx_rollback_calls)) || (tx_committed == old(tx_committed) && tx_rollback_calls == old(tx_rollback_calls) + 1)
+//@   ensures [C18.no-end-without-begin] tx_begun == old(tx_begun) ==> tx_commit_calls == old(tx_commit_calls) && tx_rollback_calls == old(tx_rollback_calls)
+//@   ensures [C18.tx-begun-once] tx_begun <= old(tx_begun) + 1
+//@   ensures [C18.no-commit-after-failure] tx_committed != old(tx_committed) ==> err == nil && faults == old(faults)
+//@   ensures [C18.commit-on-success] err == nil && txl ==> tx_committed == old(tx_committed) + 1
+//@   ensures [C18.rollback-restores] txl && err != nil && tx_rolledback == old(tx_rolledback) + 1 ==> tables_unchanged8()
+//@   ensures [C18.no-change-before-begin] txl && err != nil && tx_begun == old(tx_begun) ==> tables_unchanged8() && dev_live == old(dev_live)
+//@   ensures [C18.fail-closed] (forall s string :: acc_exists[s] && !old(acc_exists[s]) ==> !dev_live[sig]) && (forall s string :: ref_exists[s] && !old(ref_exists[s]) ==> !dev_live[sig])
+
+// ---------------------------------------------------------------- device authorization endpoint (C16, C07, C20)
+//@ spec func usersig(strategy UserCodeStrategy, code string) string
+//@ interface DeviceCodeStrategy.GenerateDeviceCode
+//@   ensures err == nil ==> signature == devsig(recv, code)
+//@ interface UserCodeStrategy.GenerateUserCode
+//@   ensures err == nil ==> signature == usersig(recv, code)
+
+//@ func (*DeviceAuthHandler).handleDeviceAuthSession
+//@   requires d != nil && dar != nil
+//@   modifies dev_live, dev_used, dev_req, dev_rid, dev_client, stored, faults
+//@   assert @call(CreateDeviceAuthSession)#1 [C16.codes-stored-as-signatures] deviceCodeSignature == devsig(d.Strategy, deviceCode) && userCodeSignature == usersig(d.Strategy, userCode)
+//@   ensures [C16.device-auth-stores] result2 == nil ==> dev_live[devsig(d.Strategy, result0)] && dev_live[usersig(d.Strategy, result1)]
+//@   ensures [C16.fault-refuses] faults != old(faults) ==> result2 != nil
+//@   invariant loop#1 [C16.device-auth-stores] i >= 0 && (i > 0 ==> err != nil && faults == old(faults) && dev_live == old(dev_live)) && (i == 0 ==> faults == old(faults) && dev_live == old(dev_live)) && deviceCodeSignature == devsig(d.Strategy, deviceCode)
